@@ -237,6 +237,36 @@ class Arr:
         return 'Arr(%s,%s,%s)' % (self.label, self.shape, self.dtype)
 
 
+class SymList:
+    """python list of symbolic length: n (z3 Int) and element function f(index term); append extends it"""
+
+    def __init__(self, n, f, label='list'):
+        self.n = n
+        self.f = f
+        self.label = label
+
+    def append(self, v):
+        n0, f0 = self.n, self.f
+        self.n = simp(to_z3(n0) + 1)
+        self.f = lambda i: _pick_or(to_z3(i) == to_z3(n0), v, f0, i)
+
+
+def _pick_or(cond, v, f0, i):
+    c = simp(cond)
+    if c is True:
+        return v
+    if c is False:
+        return f0(i)
+    old = f0(i)
+    if is_sym(v) or isinstance(v, (int, float, bool)):
+        return ite(c, v, old)
+    if isinstance(v, Opaque) and isinstance(old, Opaque) and v.name == old.name and hasattr(v, 'key') and hasattr(old, 'key'):
+        # abstract values identified by a key term
+        return Opaque(v.name, key=z3.If(c, v.key, old.key))
+    # object-valued lists: the caller must ask for a definite position
+    raise Unsupported('symbolic position in an object-valued list after append')
+
+
 class Obj:
     """Instance of a repository class (or abstract record)."""
 
@@ -747,6 +777,8 @@ class Scalars:
             if isinstance(sz, int) and sz == 1:
                 return self.truth(v.f(tuple(0 for _ in v.shape)))
             raise Unsupported('truth value of an array')
+        if isinstance(v, SymList):
+            return to_z3(v.n) != 0
         if isinstance(v, (Obj, Func, ClassV, LibRef, BoundMethod, Lam, ExcType, Opaque)):
             if isinstance(v, Opaque) and hasattr(v, 'truth'):
                 return v.truth
